@@ -27,8 +27,23 @@ func C10_response_template() {
 	wantExt := 0
 	dropAccept := false
 	env := vChoose("env", 5)
-	switch vChoose("perturb", 9) {
+	reason := []byte("Switching Protocols")
+	switch vChoose("perturb", 10) {
 	case 0:
+	case 9: // the reason phrase is free text (RFC 7230 §3.1.2): empty, short, padded, or two arbitrary bytes
+		switch vChoose("reason", 4) {
+		case 0:
+			reason = nil // the line ends with the SP after the status code
+		case 1:
+			reason = []byte("OK")
+		case 2:
+			reason = []byte(" Switching  Protocols \t")
+		case 3:
+			reason = vBytes("reason", 2)
+			for _, c := range reason {
+				vAssume(vAnd(c != '\r', c != '\n'))
+			}
+		}
 	case 1: // version digits
 		d1, d2 := vU8("vmaj"), vU8("vmin")
 		vAssume(vAnd(d1 != ' ', vAnd(d1 != '\r', vAnd(d1 != '\n', d1 != '.'))))
@@ -160,7 +175,9 @@ func C10_response_template() {
 		b = append(b, version...)
 		b = append(b, ' ')
 		b = append(b, status...)
-		b = append(b, " Switching Protocols\r\n"...)
+		b = append(b, ' ')
+		b = append(b, reason...)
+		b = append(b, "\r\n"...)
 		acc := vAccept(key)
 		if acceptMut != nil {
 			acc = acceptMut(acc)
